@@ -5,6 +5,7 @@ import errno
 import os
 import os.path
 from collections.abc import Iterable, AsyncIterable
+from contextlib import AsyncExitStack
 from datetime import datetime
 from mailbox import Maildir as _Maildir, MaildirMessage
 from typing import Any, Final, Literal, Self
@@ -310,14 +311,22 @@ class MailboxData(MailboxDataInterface[Message]):
             except KeyError:
                 return None
         dest_subdir = 'new' if recent else 'cur'
-        async with (destination.messages_lock.write_lock(),
-                    self.messages_lock.write_lock()):
+        same = destination is self
+        async with AsyncExitStack() as stack:
+            await stack.enter_async_context(
+                destination.messages_lock.write_lock())
+            if not same:
+                await stack.enter_async_context(
+                    self.messages_lock.write_lock())
             try:
                 new_filename = maildir.move_message(
                     rec.key, dest_maildir, dest_subdir)
             except (KeyError, FileNotFoundError):
                 return None
         async with UidList.with_write(destination._path) as uidl:
+            if same:
+                # the file stays in this maildir, only its UID changes
+                uidl.remove(uid)
             new_rec = Record(uidl.next_uid, rec.fields, new_filename)
             uidl.next_uid += 1
             uidl.set(new_rec)
